@@ -3,10 +3,11 @@
    Z / positive / N / nat / byte stay the extracted inductive types.  No Extract Constant. *)
 Require Extraction.
 Require Import ExtrOcamlBasic.
-From PV Require Import Thrift.Interp Thrift.Len Thrift.Async Thrift.Skip Thrift.Spec Thrift.Msg Thrift.Unsafe.
+From PV Require Import Thrift.Interp Thrift.Len Thrift.Async Thrift.Skip Thrift.Spec Thrift.Msg Thrift.Unsafe Thrift.AppMsg.
 
 Extraction "model.ml"
   Z.add Z.mul Z.sub Z.opp Z.div Z.modulo Z.ltb Z.eqb Z.of_nat Z.to_nat Z.of_N Pos.succ
   b2z z2b
   write_val write_vals read_val read_vals flat zc_len w0 r0 mkS rbuf len_val len_vals aread_val aread_vals skip askip sencB sencC annot w_message_begin r_message_begin spec_msgB spec_msgC mtype_of_code mtype_code uwrite_vals uw_contig uw_linked uread_vals uread_val u_skip u_field_begin urest tread_struct atread_struct utread_struct
+  app_encode app_size app_decode app_decode_async w_message_end a_message_begin uw_message_begin u_message_begin uwrite_val
   ttype_of_byte ttype_code.
